@@ -1,9 +1,11 @@
 """C02 — serialization emits valid JSON denoting the tree; parse(serialize(T)) = T.
 
 Script line:  ser <tree in jvtext> <flags>,<flags>,... [<op>;<op>;...]
-The optional history (see harness/drv_ser.c: C K R<flags> D I U B T Z W Y G A X) is applied to the tree through
+The optional history (see harness/drv_ser.c: C K R<flags> D I U B T Z W Y G A X F<who><scope>) is applied to the tree through
 the public API before it is serialized ("every tree built through the API": deep copies, in-place
-setters, parser-built trees, opaque userdata, serializer resets, replaced and deleted children); with a history the observation starts with
+setters, parser-built trees, opaque userdata, serializer resets, replaced and deleted children; F: the option
+formats of json_c_set_serialization_double_format, global or thread-local, set from the serializing thread or
+from helper threads); with a history the observation starts with
 "R <text hex>" per R operation, "tree <typed dump>" and, after K, "aside <typed dump>".
 Observation per flag value (" | " between them):
     <text hex> <reported length> <equal(orig,reparsed)> <typed dump of reparsed> <re-serialization hex>
@@ -51,12 +53,14 @@ LEVEL_TEXT = ("Machine-checked (Coq, no axioms): for every tree and every flag w
               "int64/uint64, any finite double under the stated %.17g shape/round-trip hypotheses), by induction on the tree; all 64 flag words "
               "(NOZERO and COLOR included) change only insignificant whitespace, colour sequences and the escape form of '/' (full strength since "
               "the NOZERO scan was repaired in json-c commit c53b19e; the old scan's defect, class nozero_eats_exponent, is kept as a theorem about "
-              "the old scan and as a regression class of the direct oracle).  parse(serialize v) through the tokener model is proved for every scalar "
-              "tree (all int64/uint64, all byte strings, all finite doubles under the strtod hypothesis) and checked end-to-end by computation on a "
-              "nested tree under the 32 flag words without COLOR; containers rely on the differential correspondence.  The model is tied to "
+              "the old scan and as a regression class of the direct oracle).  parse(serialize v) through the tokener model is proved for EVERY "
+              "tree in the serializer's domain (C02_roundtrip: all int64/uint64, all byte strings, all finite doubles under the strtod hypothesis, "
+              "arrays and objects of any size and nesting below the parser's depth limit D, default and strict mode, all 32 flag words without "
+              "COLOR): the parser consumes the whole output, returns a tree json_object_equal to the original, and that tree serializes to the "
+              "same text; the proof composes C02_ser_is_rfc8259 with the tokener theorem C01_parse_valid.  The model is tied to "
               "json_object.c on every run by differential execution.")
-LEVEL_NOTE = ("Partial: the round trip through the tokener model is proved for scalars only (containers: computed example + correspondence); "
-              "%.17g / strtod are oracles with stated hypotheses validated at run time, not Coq theorems; the tie to the C code is sampled.")
+LEVEL_NOTE = ("%.17g / strtod are oracles with stated hypotheses (fmt17_ok, strtod_ok / rt_node_ok) validated at run time on every generated "
+              "double, not Coq theorems; the tie to the C code is sampled.")
 
 SPACED, PRETTY, NOZERO, PRETTY_TAB, NOSLASH, COLOR = 1, 2, 4, 8, 16, 32
 NOZERO_CLASS = "nozero_eats_exponent"
@@ -539,6 +543,8 @@ def hist_step(t, aside, op, rtext):
             return t, aside, "R flags %d: %s" % (f, m)
         return expected_reparse(t, iter([x for kk, x in toks if kk == "n"])), aside, None
     path, rest = parse_path(body)
+    if k == "F":
+        return t, aside, None               # an option format is not part of the tree
     if k in "ZYG":
         # serializer reset (with or without new opaque userdata): a double loses its retained text
         return upd(t, path, lambda n: ("d", n[1], None) if isinstance(n, tuple) and n[0] == "d" else n), aside, None
@@ -579,6 +585,80 @@ def nodes(t, path=()):
 
 def pstr(path):
     return ".".join(str(i) for i in path) if path else "@"
+
+
+# option formats (independent of the Coq model): what json_object.h documents
+FMTS = [None, b"%.17g", b"%.0f", b"%.3f", b"%f", b"%.1f x", b"%.0f items", b"%e"]
+
+
+class FmtState:
+    """GLOBAL: process-wide, and the caller's thread format is dropped; THREAD: the calling thread only;
+    a thread uses its own format, else the global one, else %.17g"""
+    def __init__(self):
+        self.g = None
+        self.t = {}
+        self.n = 0
+
+    def call(self, op):
+        who, sc, arg = op[1], op[2], op[4:]
+        fmt = None if arg == "~" else cstr(b"" if arg == "-" else bytes.fromhex(arg))
+        if who == "h":
+            self.n += 1
+            tid = "h%d" % self.n
+        else:
+            tid = who
+        if sc == "g":
+            self.g = fmt
+            self.t.pop(tid, None)
+            return 0
+        if sc == "t":
+            if fmt is None:
+                self.t.pop(tid, None)
+            else:
+                self.t[tid] = fmt
+            return 0
+        return -1
+
+    def main_format(self):
+        f = self.t.get("m", self.g)
+        return None if f == b"%.17g" else f
+
+
+def fop(who, scope, fmt):
+    return "F%s%s=%s" % (who, scope, "~" if fmt is None else jvtext.hx(fmt))
+
+
+def gen_format_ops(rng, keep_default):
+    """1..5 calls; keep_default: only calls that must leave the serializing thread on the built-in format"""
+    ops = []
+    st = FmtState()
+    for _ in range(rng.choice([1, 1, 2, 3, 5])):
+        if keep_default:
+            op = fop(rng.choice("hp"), "t", rng.choice(FMTS))
+        else:
+            op = fop(rng.choice("mmhp"), rng.choice("ggttx"), rng.choice(FMTS))
+        ops.append(op)
+        st.call(op)
+    if not keep_default and st.main_format() is not None and rng.random() < 0.5:
+        # back to the built-in format by the documented means
+        for op in rng.choice([[fop("m", "t", None), fop(rng.choice("mh"), "g", None)], [fop("m", "g", None)], [fop("m", "t", b"%.17g")]]):
+            ops.append(op)
+            st.call(op)
+    return ops, st
+
+
+def whole_tree(rng):
+    ws = [12.0, -3.0, 0.0, -0.0, 1.0, 100.0, 1e15, 1e16, 2.0**53, -2.0**63, 1e22, 123456789.0]
+    ds = [("d", jvtext.dbits(rng.choice(ws)), None) for _ in range(rng.randint(1, 4))]
+    extra = [("d", jvtext.dbits(rng.choice([1.5, 0.1, 2.5e-10, 1.5e20])), None), ("i", 12), ("d", jvtext.dbits(7.0), b"7.0"), b"12", None]
+    xs = ds + rng.sample(extra, rng.randint(0, 3))
+    rng.shuffle(xs)
+    shape = rng.randrange(3)
+    if shape == 0:
+        return xs
+    if shape == 1:
+        return ("o", [(b"k%d" % i, x) for i, x in enumerate(xs)])
+    return [xs[0], ("o", [(b"w", xs[1:])])]
 
 
 TAGS = [b"row 7 of 12", b"%.3f", b"n/a", b"", b"1e5", b"%.0f", b"%d items", b"\x01\xff", b"\"x\"", b"%5.1f%%", None]
@@ -809,6 +889,28 @@ def gen(rng, tier):
         t = jvtext.gen_tree(rng, depth=rng.choice([0, 1, 2, 3]), size=rng.choice([2, 3, 5]))
         t = fix_strings(rng, fix_doubles(rng, t, 0.35))
         addh(t, gen_history(rng, t, rng.choice([1, 2, 3, 4, 6, 9])))
+    # (c) option formats, global / thread-local, set here or in helper threads; the main thread serializes
+    w12 = [("d", jvtext.dbits(12.0), None), ("d", jvtext.dbits(1.5), None), ("d", jvtext.dbits(-3.0), None), ("i", 12)]
+    for f in FMTS:
+        for who in "hp":
+            addh(w12, [fop(who, "t", f)], "format-fixed", [0, 4, 63])                         # another thread, for itself
+            addh(w12, [fop(who, "t", f), fop("h", "t", b"%.17g")], "format-fixed", [0, 1])
+            addh(w12, [fop(who, "g", f)], "format-fixed", [0, 2])                             # another thread, for everybody
+            addh(w12, [fop("m", "t", b"%.17g"), fop(who, "g", f)], "format-fixed", [0, 16])   # ... but this thread has its own
+        addh(w12, [fop("m", "t", f)], "format-fixed", [0, 4])
+        addh(w12, [fop("m", "g", f), fop("m", "g", None)], "format-fixed", [0, 1])
+        addh(w12, [fop("m", "t", f), fop("m", "g", None)], "format-fixed", [0, 1])            # GLOBAL drops the caller's own
+        addh(w12, [fop("m", "x", f)], "format-fixed", [0])
+    for i in range(120 if quick else 1200):
+        keep = rng.random() < 0.6
+        ops, st = gen_format_ops(rng, keep)
+        t = whole_tree(rng)
+        if st.main_format() is None and rng.random() < 0.4:
+            # and a tree operation under the built-in format
+            ps = double_paths(t)
+            if ps:
+                ops = ops + [rng.choice(["C", "D%s=%016x" % (pstr(rng.choice(ps)), jvtext.dbits(rng.choice([5.0, -0.0, 1e15, 2.5]))), "R0"])]
+        addh(t, ops, "format")
     # a few non-finite doubles: not JSON, correspondence and length/re-serialization only
     for b in (0x7ff0000000000000, 0xfff0000000000000, 0x7ff8000000000000):
         add([("d", b, None), ("i", 1)], "nonfinite", [0, 1, 2, 4, 63])
@@ -860,13 +962,25 @@ def oracle_(line, meta, impl):
     if " | LEAK " in impl:
         return ("leak", "allocation leaked: " + impl[-40:])
     hist_found = None
+    custom_format = False
     if ops:
         # the history: what the API calls denote, computed here; the driver's dump must agree
         raw = impl.split(" | ")
         pos = 0
         aside = None
+        fst = FmtState()
         for op in ops:
             rtext = None
+            if op[0] == "F":
+                want_rc = fst.call(op)
+                if pos >= len(raw) or not raw[pos].startswith("F "):
+                    return ("malformed", "history: F step missing: " + impl[:120])
+                if raw[pos] != "F %d" % want_rc:
+                    return ("format-call-result", "json_c_set_serialization_double_format in %s returned %s, documented: %d" % (op, raw[pos][2:], want_rc))
+                pos += 1
+                continue
+            if op[0] == "R" and fst.main_format() is not None and any(d[2] is None for d in tree_doubles(tree)):
+                return None      # a re-parse under a custom option format: the caller's format decides the text; correspondence only
             if op[0] == "R":
                 if pos >= len(raw) or not raw[pos].startswith("R "):
                     return ("malformed", "history: R step missing: " + impl[:120])
@@ -892,11 +1006,19 @@ def oracle_(line, meta, impl):
                               % (raw[pos][6:][:120], jvtext.dump(aside[1])[:120], ";".join(ops)))
             pos += 1
         impl = " | ".join(raw[pos:])
+        custom_format = fst.main_format() is not None and any(d[2] is None for d in tree_doubles(tree))
     steps = parse_obs(impl)
     if steps and steps[-1][0] == "leak":
         return ("leak", "allocation leaked: " + steps[-1][1])
     if len(steps) != len(flags) or any(s[0] == "bad" for s in steps):
         return ("malformed", "unexpected driver output: " + impl[:120])
+    if custom_format:
+        # the serializing thread itself (or a GLOBAL setting it did not override) chose another printf format: the
+        # numbers are what that format prints; what remains of the property is the length, and the correspondence
+        for f, st in zip(flags, steps):
+            if st[2] != len(st[1]):
+                return ("length", "flags %d: reported length %d, text length %d" % (f, st[2], len(st[1])))
+        return hist_found
     finite = is_finite_tree(tree)
     all_utf8 = all(is_utf8(s) for s in tree_strings(tree))
     found = []            # all violations; a non-NOZERO class wins
@@ -986,6 +1108,9 @@ def oracle_(line, meta, impl):
                     tok = next(nums, None)
                     if t[0] == "d" and t[2] is None and tok is not None and not check_fmt17_shape(tok):
                         found.append(("fmt17-shape", "double %016x printed as %r: outside the %%.17g shape the proof assumes" % (t[1], tok)))
+                    if t[0] == "d" and t[2] is None and tok is not None and not any(c in tok for c in b".e"):
+                        found.append(("double-without-fraction", "double %016x printed as %r under the built-in format: no '.0', it re-parses as an "
+                                      "integer node%s" % (t[1], tok, (" (history %s)" % ";".join(ops)) if ops else "")))
         walk(tree)
     if hist_found is not None:
         return hist_found
